@@ -10,6 +10,10 @@
         non-contiguous bins).
    Since fix 1620b43e (finding F-AC) nothing beyond the code's own validation is assumed: "rows with the same left edge
    have the same right edge", formerly a separate conjunct of [wf], is the consequence C15_ends_agree.
+   Missing attributes: [no_nan k s] = the simulant's key attributes are present and none of its k parameter attributes
+   is NaN; [numeric k s] = none of them is a non-number (C15_non_numeric: those are rejected).  What the code does otherwise is transcribed in the model and stated by C15_nan_parameter / C15_missing_key
+   (candidate finding F-NAN, awaiting triage: a NaN parameter silently selects the LAST bin and is never rejected - not
+   even with extrapolation off; a missing key silently yields a row of NaN).
    Requests are arbitrary label lists: a label may occur several times (each occurrence gets the simulant's row).
    Open finding F-N (known_findings.json): the `year` value is year + yday/365.25, which leaves the current calendar
    year on day-of-year 366: C15_year_current carries the exact guard [1 <= yday <= 365]; the excluded class is
@@ -21,7 +25,7 @@ Local Open Scope Z_scope.
    covered range [first left edge, largest right edge) gets a row r of the data with r's keys = its keys and
    start_p r <= x_p < end_p r for EVERY parameter p - and r is the only such row (extrapolation on or off). *)
 Theorem C15_bin_membership : forall ext d k s,
-  wf k d = true -> group d (skeys s) <> [] ->
+  wf k d = true -> no_nan k s -> numeric k s -> group d (skeys s) <> [] ->
   (forall p, (p < k)%nat -> in_range (group d (skeys s)) p (param p s)) ->
   exists r, lookup_row ext d k s = Ok (Some r) /\ In r d /\ rkeys r = skeys s /\
             (forall p, (p < k)%nat -> start p r <= param p s < stop p r) /\
@@ -33,7 +37,7 @@ Proof. exact bin_membership. Qed.
    inside the range the containing bin - independently per parameter.
    Extrapolation off: any parameter outside the covered range => rejected (ValueError). *)
 Theorem C15_extrapolate : forall d k s,
-  wf k d = true -> group d (skeys s) <> [] ->
+  wf k d = true -> no_nan k s -> numeric k s -> group d (skeys s) <> [] ->
   let G := group d (skeys s) in
   (exists r, lookup_row true d k s = Ok (Some r) /\ In r d /\ rkeys r = skeys s /\
      forall p, (p < k)%nat ->
@@ -44,14 +48,40 @@ Theorem C15_extrapolate : forall d k s,
 Proof. exact extrapolation. Qed.
 
 (* a key tuple that does not occur in the data: rejected (KeyError), whatever the flags *)
-Theorem C15_unknown_key : forall ext d k s, group d (skeys s) = [] -> lookup_row ext d k s = Rejected EPopulation.
+Theorem C15_unknown_key : forall ext d k s, key_has_nan (skeys s) = false -> group d (skeys s) = [] ->
+  lookup_row ext d k s = Rejected EPopulation.
 Proof. exact lookup_row_unknown_key. Qed.
+
+(* THE CODE AS IT IS (candidate finding F-NAN).  A simulant whose attribute for parameter p is NaN is never rejected on
+   account of p - also with extrapolation off - and silently receives the LAST bin of p (np.digitize(NaN) = len(bins));
+   its numeric parameters are treated as usual. *)
+Theorem C15_nan_parameter : forall ext d k s,
+  wf k d = true -> key_has_nan (skeys s) = false -> numeric k s -> group d (skeys s) <> [] ->
+  (ext = true \/ forall p, (p < k)%nat -> isnan p s = false -> in_range (group d (skeys s)) p (param p s)) ->
+  exists r, lookup_row ext d k s = Ok (Some r) /\ In r d /\ rkeys r = skeys s /\
+    forall p, (p < k)%nat ->
+      (isnan p s = true -> start p r = last_edge (group d (skeys s)) p) /\
+      (isnan p s = false -> in_range (group d (skeys s)) p (param p s) -> start p r <= param p s < stop p r).
+Proof. exact nan_parameter. Qed.
+
+(* a parameter attribute that is not a number (a string in an object column): rejected (TypeError) *)
+Theorem C15_non_numeric : forall ext d k s, key_has_nan (skeys s) = false -> group d (skeys s) <> [] ->
+  any_bad k s = true -> lookup_row ext d k s = Rejected EOther.
+Proof. exact lookup_row_bad. Qed.
+
+(* ... and a simulant with a missing KEY attribute belongs to no group: it silently gets a row of NaN, whatever the data
+   and the flags (binned and categorical tables alike) *)
+Theorem C15_missing_key : forall ext d k s, key_has_nan (skeys s) = true ->
+  lookup_one ext d k s = Ok None /\ cat_one d s = Ok None.
+Proof.
+  intros ext d k s H. split; [now apply lookup_one_missing_key|]. unfold cat_one. now rewrite H.
+Qed.
 
 (* The classic off-by-one, stated on its own: a value equal to a bin's left edge belongs to that bin; a value equal to
    a (proper) bin's right edge belongs to the bin that STARTS there, not to the one that ends there. *)
 Theorem C15_edges : forall ext d k s r,
-  wf k d = true -> lookup_row ext d k s = Ok (Some r) ->
-  forall p r0, (p < k)%nat -> In r0 d -> rkeys r0 = skeys s ->
+  wf k d = true -> key_has_nan (skeys s) = false -> lookup_row ext d k s = Ok (Some r) ->
+  forall p r0, (p < k)%nat -> isnan p s = false -> In r0 d -> rkeys r0 = skeys s ->
     (param p s = start p r0 -> start p r = param p s) /\
     (param p s = stop p r0 -> start p r0 < stop p r0 -> param p s < max_right (group d (skeys s)) p ->
        start p r = param p s /\ r <> r0).
@@ -105,7 +135,7 @@ Proof.
   intros d pop idx Hnd. split; [now apply cat_call_local|]. intros fr E. now apply cat_call_indexed.
 Qed.
 
-Theorem C15_categorical_row : forall d s vs, cat_one d s = Ok vs ->
+Theorem C15_categorical_row : forall d s vs, key_has_nan (skeys s) = false -> cat_one d s = Ok vs ->
   exists r, vs = Some (rvals r) /\ In r d /\ rkeys r = skeys s /\ forall r', In r' d -> rkeys r' = skeys s -> r' = r.
 Proof. exact cat_one_spec. Qed.
 
@@ -119,9 +149,13 @@ Proof. exact valid_ends_agree. Qed.
 
 (* the `year` parameter: the table overwrites exactly the year slot of every requested simulant with one value ... *)
 Theorem C15_year_slot : forall p yv s, (p < length (sparams s))%nat ->
-  param p (with_year (Some p) yv s) = yv /\ skeys (with_year (Some p) yv s) = skeys s /\
+  param p (with_year (Some p) yv s) = yv /\ isnan p (with_year (Some p) yv s) = false /\
+  skeys (with_year (Some p) yv s) = skeys s /\
   forall q, q <> p -> param q (with_year (Some p) yv s) = param q s.
-Proof. exact with_year_param. Qed.
+Proof.
+  intros p yv s H. destruct (with_year_param p yv s H) as [A [B C]]. repeat split; try assumption.
+  apply with_year_not_nan.
+Qed.
 
 (* ... which lies in the current simulation year [y, y+1) - GUARD: day-of-year 1..365 (finding F-N excluded) *)
 Theorem C15_year_current : forall D y yday, 0 < D -> 1 <= yday <= 365 ->
@@ -145,15 +179,15 @@ Definition ex_d : list row :=
    mkRow [0] [(0, 5); (12, 40)] [102]; mkRow [0] [(5, 13); (12, 40)] [103];
    mkRow [1] [(-8, 0); (10, 11)] [110]; mkRow [1] [(0, 1); (10, 11)] [111]].
 Definition ex_pop : list (Z * simulant) :=
-  [(0, mkSim [0] [5; 12]);      (* exactly on two left edges *)
-   (1, mkSim [0] [4; 39]);      (* interior / just below the last right edge *)
-   (2, mkSim [1] [-9; 10]);     (* below the range of the first parameter *)
-   (3, mkSim [1] [1; 10]);      (* exactly on the largest right edge: outside *)
-   (4, mkSim [2] [0; 10])].     (* key tuple without data *)
+  [(0, mkSim [0] [5; 12] [] []);      (* exactly on two left edges *)
+   (1, mkSim [0] [4; 39] [] []);      (* interior / just below the last right edge *)
+   (2, mkSim [1] [-9; 10] [] []);     (* below the range of the first parameter *)
+   (3, mkSim [1] [1; 10] [] []);      (* exactly on the largest right edge: outside *)
+   (4, mkSim [2] [0; 10] [] [])].     (* key tuple without data *)
 
 Example ex_wf : wf 2 ex_d = true.
 Proof. vm_compute. reflexivity. Qed.
-Example ex_range : forall p, (p < 2)%nat -> in_range (group ex_d [0]) p (param p (mkSim [0] [5; 12])).
+Example ex_range : forall p, (p < 2)%nat -> in_range (group ex_d [0]) p (param p (mkSim [0] [5; 12] [] [])).
 Proof. intros [|[|p]] H; try lia; vm_compute; split; congruence. Qed.
 Example ex_inside : table_call false ex_d 2 None 0 ex_pop [1; 0] = Ok [(1, Some [102]); (0, Some [103])].
 Proof. vm_compute. reflexivity. Qed.
@@ -164,6 +198,21 @@ Proof. vm_compute. reflexivity. Qed.
 Example ex_duplicates : table_call false ex_d 2 None 0 ex_pop [1; 0; 1; 1] =
   Ok [(1, Some [102]); (0, Some [103]); (1, Some [102]); (1, Some [102])].
 Proof. vm_compute. reflexivity. Qed.
+(* simulant 5: attribute of parameter 0 is NaN -> the last bin [5,13) of that parameter, also with extrapolation off;
+   simulant 6: missing key -> a row of NaN *)
+Example ex_missing : table_call false ex_d 2 None 0
+    (ex_pop ++ [(5, mkSim [0] [0; 11] [0] []); (6, mkSim [-1] [1; 11] [] [])]) [5; 6; 1] =
+  Ok [(5, Some [101]); (6, None); (1, Some [102])].
+Proof. vm_compute. reflexivity. Qed.
+(* a last bin whose right edge is not above its left edge ([5,2)) passes the validation; every in-range value still gets
+   a row that contains it (C15_bin_membership), values at or above the largest right edge (5) are out of range *)
+Example ex_degenerate_last_bin :
+  let d := [mkRow [] [(0, 5)] [1]; mkRow [] [(5, 2)] [2]] in
+  wf 1 d = true /\ max_right d 0 = 5 /\
+  lookup_row false d 1 (mkSim [] [4] [] []) = Ok (Some (mkRow [] [(0, 5)] [1])) /\
+  lookup_row false d 1 (mkSim [] [5] [] []) = Rejected EConfig /\
+  lookup_row true d 1 (mkSim [] [7] [] []) = Ok (Some (mkRow [] [(5, 2)] [2])).
+Proof. vm_compute. repeat split; reflexivity. Qed.
 Example ex_unknown_key : table_call true ex_d 2 None 0 ex_pop [0; 4] = Rejected EPopulation.
 Proof. vm_compute. reflexivity. Qed.
 (* finding F-AC: the last right edge differs between sub-tables ([5,10) where p1 = 0, [5,12) where p1 = 1).  The
@@ -174,18 +223,21 @@ Example ex_ends_disagree :
   let d := [mkRow [] [(0, 5); (0, 1)] [1]; mkRow [] [(5, 10); (0, 1)] [2];
             mkRow [] [(0, 5); (1, 2)] [3]; mkRow [] [(5, 12); (1, 2)] [4]] in
   valid 2 d = false /\ wf 2 d = false /\
-  lookup_row false d 2 (mkSim [] [11; 0]) = Ok (Some (mkRow [] [(5, 10); (0, 1)] [2])).
+  lookup_row false d 2 (mkSim [] [11; 0] [] []) = Ok (Some (mkRow [] [(5, 10); (0, 1)] [2])).
 Proof. vm_compute. repeat split; reflexivity. Qed.
 (* the same grid with equal last right edges is accepted, and 11 is then inside [5,12) *)
 Example ex_ends_agree :
   let d := [mkRow [] [(0, 5); (0, 1)] [1]; mkRow [] [(5, 12); (0, 1)] [2];
             mkRow [] [(0, 5); (1, 2)] [3]; mkRow [] [(5, 12); (1, 2)] [4]] in
-  wf 2 d = true /\ lookup_row false d 2 (mkSim [] [11; 0]) = Ok (Some (mkRow [] [(5, 12); (0, 1)] [2])).
+  wf 2 d = true /\ lookup_row false d 2 (mkSim [] [11; 0] [] []) = Ok (Some (mkRow [] [(5, 12); (0, 1)] [2])).
 Proof. vm_compute. split; reflexivity. Qed.
 
 Print Assumptions C15_bin_membership.
 Print Assumptions C15_extrapolate.
 Print Assumptions C15_unknown_key.
+Print Assumptions C15_nan_parameter.
+Print Assumptions C15_missing_key.
+Print Assumptions C15_non_numeric.
 Print Assumptions C15_edges.
 Print Assumptions C15_local.
 Print Assumptions C15_indexed_like_request.
